@@ -24,6 +24,7 @@
      ForeignFree       no answer other than zero / the canonical hash of the index
      NothingBeyondTip  zero above the header height
      TipOK             CurrentHeaderHash() is the canonical hash of hh
+     NoPanic           no Go panic escapes HeaderHeight / CurrentHeaderHash / GetHeaderHash
      Extends           canonical headers / blocks offered next are accepted and the heights follow
      HeightsStable     a flush / a lookup sweep does not move the heights
      ResetOK, ResetDone  Reset(h) succeeds and leaves header = block height = h
@@ -31,7 +32,8 @@
      drift:MemShape          storedHeaderCount = ((hh+1) div Page) * Page and len(latest) = hh + 1 - stored
                              (what HeaderHashesImpl!MemCanonical predicts for every node, restarted or not)
      drift:FlushPersistsAll  after a flush / clean stop the backend's tip pointers equal the node's heights
-     drift:RecoversPersisted a restarted node comes back exactly at the tip pointers of the image
+     drift:RecoversPersisted a restarted node comes back exactly at the tip pointers of the image (unless the image
+                             carries the marker of an interrupted Reset, which is resumed)
      drift:StopKeepsHeights  a clean stop + restart loses nothing
      drift:DiskPages         page keys on the backend are complete pages below the persisted tip *)
 EXTENDS TraceIO, FiniteSets, SequencesExt
@@ -55,6 +57,7 @@ ObsChecksC(c, o) ==
     \cup NameIf(A!Retained(o.hh, FloorC(c, o), Segs(o)), "Retained")
     \cup NameIf(A!NothingBeyondTip(o.hh, Segs(o)), "NothingBeyondTip")
     \cup NameIf(o.hh >= FloorC(c, o) => o.tip = "c", "TipOK")
+    \cup NameIf(o.panic = "", "NoPanic")
 ObsChecks(o) == ObsChecksC(cfg, o)
 
 \* model-level expectations on an observation
@@ -78,12 +81,12 @@ StepChecks(e) ==
       [] e.op \in {"stop", "reopen"} ->
             IF ~e.ok THEN {"Restarted"}
             ELSE NameIf(A!HeightBound(o.hh, o.bh, ahh, abh), "HeightBound") \cup ObsChecks(o) \cup ObsDrift(o)
-                 \cup NameIf(o.hh = hh /\ o.bh = bh, "drift:StopKeepsHeights")
+                 \cup NameIf(e.interrupted \/ (o.hh = hh /\ o.bh = bh), "drift:StopKeepsHeights")
                  \cup NameIf(o.dhh = o.hh /\ o.dbh = o.bh, "drift:FlushPersistsAll")
       [] e.op = "crash" ->
             IF ~e.ok THEN {"Restarted"}
             ELSE NameIf(A!HeightBound(o.hh, o.bh, ahh, abh), "HeightBound") \cup ObsChecks(o) \cup ObsDrift(o)
-                 \cup NameIf(o.hh = Max2(e.ihh, cfg.trusted - 1) /\ o.bh = e.ibh, "drift:RecoversPersisted")
+                 \cup NameIf(e.imark \/ (o.hh = Max2(e.ihh, cfg.trusted - 1) /\ o.bh = e.ibh), "drift:RecoversPersisted")
       [] e.op = "reset" ->
             IF ~e.ok THEN {"ResetOK"}
             ELSE NameIf(A!ResetDone(e.h, o.hh, o.bh), "ResetDone") \cup ObsChecks(o) \cup ObsDrift(o)
